@@ -39,6 +39,8 @@ CHECKS = {
          "Structural necessary conditions on all paths (0,1,2+ ports): every created endpoint is registered under its port and bound to it; stop looks up and closes every registered open transport and cannot raise; the running flag has exactly three writers, set last in start and never on a raising exit, cleared last in stop; a failing bind releases the transports acquired earlier; the context manager pairs start/stop and does not swallow exceptions. Socket release timing and callback quiescence after close() are asyncio behaviour (trusted).", "§4 C17"),
  "C18": ("other", "path/event analysis of connect/disconnect/__aenter__/__aexit__ on fresh and connected instances; flag-writer sweep",
          "Structural necessary conditions on all paths: the connected flag is written only by __init__/connect/disconnect; connect sets it after the awaited open_connection returned and both streams are stored, never on the refused path; disconnect closes then awaits wait_closed before clearing it and touches nothing before any connect; context exit always disconnects and returns falsy; connect does not depend on earlier state (reconnectable). EOF at the peer and idempotence of close() are asyncio behaviour (trusted).", "§4 C18"),
+ "C13": ("other", "clock-domain tagging of the function's clock reads; provenance of the named weekday through the abstract interpreter (element-of the selected weekdays); template and guard shape of the 'today' answer",
+         "Decides four clauses only: every 'now' read is a LOCAL clock read; the weekday named in 'Due next <weekday>' is Days.value of an element of the selected days; no days => 'Due today' without reading the clock and every answer is one of three templates with the unmodified start; 'today' is answered exactly under (weekday(now) selected) and (now < start). That the chosen day is the EARLIEST upcoming occurrence is arithmetic over 7x128x3 cases whose decision is execution, outside this family: NOT decided (a defect of exactly that kind was found by reading and fixed, see known_findings.json).", "§4 C13"),
 }
 CHECKS.update(_MORE) if False else None
 NOT_YET = {}
